@@ -24,3 +24,29 @@ package keeper
 //@   modifies get(ctx, "avs", taskNumKey(taskAddr))
 //@   ensures[C20.gtid.next]   result == old(taskNum(ctx, taskAddr)) + 1 && result >= 1
 //@   ensures[C20.gtid.stored] taskNumRaw(ctx, taskAddr) != nil && taskNum(ctx, taskAddr) == result
+
+// C20: the challenge is accepted only inside the challenge window (strictly after the statistical period, not after
+// the challenge period) — guard on the single write of the function; epoch and task are whatever was read on the path
+//@ func (Keeper).RaiseAndResolveChallenge
+//@   requires params != nil
+//@   flag pure=GetTaskInfo,GetTaskResultInfo,UnmarshalTaskResponse,GetTaskResponseDigestEncodeByAbi,IsExistTaskChallengedInfo,GetAVSInfoByTaskAddress,GetEpochInfo
+//@   flag havoc=SetTaskChallengedInfo
+//@   modifies state(ctx)
+//@   before[C20.rrc.window] SetTaskChallengedInfo requires
+//@        (res_GetTaskInfo_0.StartingEpoch < 1099511627776 && res_GetTaskInfo_0.TaskResponsePeriod < 1099511627776 &&
+//@         res_GetTaskInfo_0.TaskStatisticalPeriod < 1099511627776 && res_GetTaskInfo_0.TaskChallengePeriod < 1099511627776) ==>
+//@        res_GetEpochInfo_0.CurrentEpoch > res_GetTaskInfo_0.StartingEpoch + res_GetTaskInfo_0.TaskResponsePeriod + res_GetTaskInfo_0.TaskStatisticalPeriod &&
+//@        res_GetEpochInfo_0.CurrentEpoch <= res_GetTaskInfo_0.StartingEpoch + res_GetTaskInfo_0.TaskResponsePeriod + res_GetTaskInfo_0.TaskStatisticalPeriod + res_GetTaskInfo_0.TaskChallengePeriod
+//@   before[C20.rrc.once]   SetTaskChallengedInfo requires !res_IsExistTaskChallengedInfo_0
+
+// C20: the task id comes from the counter of the task contract the task is stored under; only a listed owner of the AVS
+// that owns the task contract creates tasks
+//@ func (Keeper).CreateAVSTask
+//@   requires params != nil
+//@   flag pure=GetAVSInfoByTaskAddress,GetAVSUSDValue,GetEpochInfo,IsExistTask,GetOptInOperators
+//@   flag havoc=GetTaskID,SetTaskInfo
+//@   modifies state(ctx)
+//@   before[C20.cat.counter] GetTaskID requires arg_taskAddr == hex2addr(params.TaskContractAddress)
+//@   before[C20.cat.owner]   GetTaskID requires contains(res_GetAVSInfoByTaskAddress_0.AvsOwnerAddress, params.CallerAddress) && res_GetAVSInfoByTaskAddress_0.AvsAddress != ""
+//@   before[C20.cat.stored]  SetTaskInfo requires arg_task.TaskId == res_GetTaskID_0 && arg_task.TaskContractAddress == params.TaskContractAddress &&
+//@        arg_task.StartingEpoch == wrapu(res_GetEpochInfo_0.CurrentEpoch + 1, 18446744073709551616)
